@@ -608,6 +608,10 @@ let handle (fields : string list) : string * string =
     (m, if m = impl then "ok"
         else if ok then "fail:refused-from-the-issuing-address"
         else "fail:channel-created-from-another-address")
+  | "isolation" :: _what :: impl :: [] ->
+    (* C07 at volume: C07_noninterference says a tunnel's outputs are those of its own operations; for relayed
+       data that is: every byte a client receives was sent by its own host, in order *)
+    ("own-bytes-only", if impl = "own-bytes-only" then "ok" else "fail:" ^ impl)
   | "pairing" :: same :: impl :: [] ->
     let c = parse_cfg "10101" "0000000" "0" in
     let one = n_of_int 1 and two = n_of_int 2 in
